@@ -24,6 +24,7 @@ CLAIMS = {
     "C03": ("Refinement of the write state machine (transcription of state.rs: interleaved key/value counter, parent slot claimed before push, parent stack) to a grammar zipper (Spec/Grammar.lean: path of open containers with completed pairs / waiting key / items, statuses as documented in api/README.md). "
             "C03_state_machine_is_the_source_text: every method of state.rs is translated on every run by extract/rs2lean.py (symbolic execution of the Rust bodies, early returns, `*self = ..`, payload counters, swap_and_push, pop().unwrap_or(End)) into Gen/FnsState.lean and proved equal to the model, so the theorems are re-checked against what the source says now. Theorems: C03_call_answered_by_grammar (in EVERY reachable state, any nesting depth and fill level, each of the operations gets exactly the grammar's status and the state afterwards stands for the grammar's document), C03_history_answered_by_grammar (every finite call sequence, continuing after errors and after completion), "
             "C03_language_of_the_grammar / C03_accepted_complete_sequences_are_trees (a call sequence is accepted call by call and finalisation then succeeds IFF it is the token string of a tree: one root value, objects = declared number of string-key/value pairs then finish, arrays = declared number of values then finish, any nesting), C03_complete_iff_root_closed (finalisation succeeds iff the grammar's document is complete), C03_complete_is_final, C03_reject_noop (a rejected call leaves output bytes, position and parent stack unchanged, for every state and operation). "
+            "C03_every_history / C03_every_history_complete: at the level of a whole thread, after any history of protocol operations (reads, logs, interning, typed (de)serialisation, new invocations, accepted and rejected writes, string writes whole or as allocation + copy) the next write call is answered by the grammar, moves the document as the grammar says, changes nothing when rejected, and finalisation succeeds iff the root value is closed. "
             "Tie: status of every call, output snapshot and finalisation compared with the real crates on random long sequences, all sequences up to length 4 over a 14-letter alphabet, and 32-bit lengths (2^31, 2^32-1) under miri/i686.",
             TB + "miri (32-bit runs). The model uses unbounded naturals for the counters; the 32-bit wrap-around of the key/value counter (F1) is covered by the miri runs, not by the theorem.", "Lean 4 refinement theorem + differential correspondence + exhaustive short sequences", "§4 C03"),
     "C04": ("Theorems about the instruction lists the current trampoline source emits (regenerated into Gen/Glue.lean on every run by running the real TrampolineCodegen on a fixed family of three guest modules): for all arguments, both memories, every calling context and every provider response, "
@@ -33,7 +34,7 @@ CLAIMS = {
             TB + "Mini-Wasm semantics of the 12 instructions (cross-checked against wasmtime on every run); walrus keeping every reference pointed at the replaced function is exercised, not proved, so 'all guest modules' is partial: module shapes are sampled. wasmtime, walrus, wasmparser, wat.",
             "Lean 4 symbolic execution of regenerated glue code + kernel-decided shape check + differential execution in wasmtime", "§4 C04"),
     "C05": ("Theorem C05_read_is_tail, for every capacity > 0 and instantiated at the extracted 1001: after any sequence of messages of any lengths the two read segments, concatenated, are exactly the last min(total, capacity) bytes logged, in order "
-            "(step theorem read(log l m) = lastN cap (read l ++ m) under a ring invariant, lifted by induction over histories; every prefix is a history, so it holds at every read point). C05_plan_sound: every plan covers exactly the retained tail, lies inside the buffer, segments disjoint. "
+            "(step theorem read(log l m) = lastN cap (read l ++ m) under a ring invariant, lifted by induction over histories; every prefix is a history, so it holds at every read point). C05_plan_sound: every plan covers exactly the retained tail, lies inside the buffer, segments disjoint. C05_every_history: the same at the level of a whole thread — at any moment of any history of protocol operations (reads, writes, interning, typed (de)serialisation, new invocations in between) the host reads the last min(total, capacity) bytes logged since the current invocation started. "
             "C05_model_is_the_source_text: Logs::append and Logs::read_ptrs are translated from provider/src/log.rs on every run (rs2lean: mutable locals, early-assigned segments, pointer offsets) and proved equal to the model. Plans (as offsets) and read-back segments compared with the real ring after every message, split request/copy forms included.",
             TB + "A trap inside the cross-memory copy itself (guest passes an out-of-bounds source) is outside the stated quantifier and not modelled.",
             "Lean 4 invariant + refinement to 'last N bytes' by induction over histories + differential correspondence", "§4 C05"),
